@@ -129,6 +129,21 @@ fn prepare_apply(tag: &str, root: &str, tree: &str, mode: &str, patch: &[u8]) ->
     Prepared { tmp, op: b'a', a, n: patch.len() }
 }
 
+/// `applyfull`: the target path of the patch's AddFile command is a symbolic link to `/dev/full`
+/// (opens, seeks, every write fails with ENOSPC)
+fn prepare_apply_full(tag: &str, rel: &str, patch: &[u8]) -> Prepared {
+    limit_file_size();
+    let tmp = scratch(tag);
+    let base = tmp.path().join("a").join("b").join("c");
+    let data = base.join("data");
+    let p = data.join(rel);
+    std::fs::create_dir_all(p.parent().unwrap()).unwrap();
+    std::os::unix::fs::symlink("/dev/full", &p).unwrap();
+    std::fs::write(base.join("patch.bin"), patch).unwrap();
+    let a = data.to_str().unwrap().to_string();
+    Prepared { tmp, op: b'a', a, n: patch.len() }
+}
+
 fn prepare_exec(tag: &str, mode: &str, b: &[u8]) -> Prepared {
     let tmp = scratch(tag);
     let p = tmp.path().join("ffxivlauncher.exe");
@@ -167,6 +182,14 @@ pub fn prepare(tag: &str, f: &[&str]) -> Option<Prepared> {
             }
             Some(prepare_apply(tag, f[1], f[2], f[3], &b))
         }
+        "applyfull" if f.len() == 3 => {
+            let rel = String::from_utf8(unhex(f[1])?).ok()?;
+            // no such device here (not Linux): the fault cannot be injected — the case passes
+            if std::fs::OpenOptions::new().write(true).open("/dev/full").is_err() {
+                return None;
+            }
+            Some(prepare_apply_full(tag, &rel, &unhex(f[2])?))
+        }
         "execlookup" if f.len() == 3 => Some(prepare_exec(tag, f[1], &unhex(f[2])?)),
         "bootdata" if f.len() == 3 => Some(prepare_boot(tag, f[1], &unhex(f[2])?)),
         _ => None,
@@ -174,8 +197,11 @@ pub fn prepare(tag: &str, f: &[&str]) -> Option<Prepared> {
 }
 
 pub fn run(f: &[&str]) -> String {
+    if f[0] == "applyfull" && std::fs::OpenOptions::new().write(true).open("/dev/full").is_err() {
+        return "err".into();
+    }
     let tag = match f[0] {
-        "apply" => "c17",
+        "apply" | "applyfull" => "c17",
         "execlookup" => "c17x",
         _ => "c17b",
     };
@@ -483,6 +509,17 @@ pub fn generate(thorough: bool, rng: &mut Rng, out: &mut dyn Write) {
         }
         for mode in ["missing", "isdir"] {
             writeln!(out, "apply dir - {} {}", mode, hex(&s)).unwrap();
+        }
+        // a target that opens and seeks but cannot be written (`applyfull`): small blocks (a
+        // buffered writer would hold them back), a block above 8 KiB, several blocks, offset 0 and > 0
+        for (i, (off, sizes)) in [(16u64, vec![10usize]), (16, vec![200, 100]), (4096, vec![9000]), (1, vec![3000, 3000, 3000]), (0, vec![50]), (100, vec![1])].iter().enumerate() {
+            let rel: &[u8] = if i % 2 == 0 { b"full.bin" } else { b"sqpack/ex1/full.dat" };
+            let mut p = PB::new();
+            p.fhdr(3);
+            let blocks: Vec<(u8, Vec<u8>)> = sizes.iter().map(|n| (0u8, vec![0x5a; *n])).collect();
+            p.file_op(b'A', *off, sizes.iter().sum::<usize>() as u64, 0, rel, &blocks);
+            p.eof();
+            writeln!(out, "applyfull {} {}", hex(rel), hex(&p.v)).unwrap();
         }
         // start trees that make individual file-system steps fail
         let trees = [
